@@ -216,6 +216,7 @@ class Generator:
 		self.stats = {}
 		self.toggles = {}
 		self.extreme = None      # 'min': every variable-length member as short as admissible; 'max': as long as this generator goes
+		self.ints = None         # 'max' / 'min': every integer member (plain or alias typed) holds exactly the largest / smallest value of its width
 
 	def note(self, key):
 		self.stats[key] = self.stats.get(key, 0) + 1
@@ -226,6 +227,9 @@ class Generator:
 		model_kind = kind(model)
 		if model_kind == 'Alias':
 			if kind(model.linked_type) == 'FixedSizeInteger':
+				if self.ints:
+					self.note(f'ints:{self.ints}:alias')
+					return int_bounds(model.size, True)[self.ints == 'max']
 				return gen_int(self.rng, model.size, True)      # BaseValue aliases are range-checked as unsigned
 			return bytes(self.rng.randrange(256) for _ in range(model.size))
 		if model_kind == 'Enum':
@@ -331,6 +335,9 @@ class Generator:
 		field_kind = kind(field_type)
 		if field_kind == 'FixedSizeInteger':
 			value = gen_int(self.rng, field_type.size, field_type.is_unsigned)
+			if self.ints:
+				self.note(f'ints:{self.ints}:plain')
+				value = int_bounds(field_type.size, field_type.is_unsigned)[self.ints == 'max']
 			return value or 1 if nonempty else value
 		if field_kind == 'Array':
 			count_field = by_name.get(field_type.size) if isinstance(field_type.size, str) else None
@@ -355,6 +362,36 @@ class Generator:
 			self.note(f'array:{field_type.disposition}:{"keyed" if field_type.sort_key else "plain"}:len{min(len(items), 4)}')
 			return items
 		return self.named(field_type, depth + 1)
+
+	def element_of_residue(self, element_type, alignment, aligned, depth=1, tries=96):
+		"""An admissible element of a named type whose encoded size is (aligned) / is not (not aligned) a multiple of `alignment`: candidates
+		are drawn until one fits; a candidate that misses is first retried with one of its variable-length byte members resized by the
+		missing amount.  The size is read off the codec's own encoding: it SELECTS inputs and is never an oracle.  None: nothing found."""
+		def fits(size):
+			return size is not None and (size % alignment == 0) == bool(aligned)
+
+		for _ in range(tries):
+			candidate = self.named(element_type, depth)
+			size = encoded_length(self.net, element_type, candidate)
+			if fits(size):
+				self.note(f'residue:{"aligned" if aligned else "unaligned"}:drawn')
+				return candidate
+			if size is None or not isinstance(candidate, tuple):
+				continue
+			model = self.net.by_name[candidate[1]]
+			for field in settable_fields(model):
+				value = dict(candidate[2]).get(field.name)
+				if not is_byte_array(field) or field.is_conditional or not isinstance(value, bytes):
+					continue
+				if isinstance(field.field_type.size, int) and not field.field_type.is_expandable:
+					continue
+				extra = (-size) % alignment if aligned else (1 if (size + 1) % alignment else 2)
+				resized = value + bytes(self.rng.randrange(256) for _ in range(extra))
+				tweaked = ('S', candidate[1], [(name, resized if name == field.name else member) for name, member in candidate[2]])
+				if fits(encoded_length(self.net, element_type, tweaked)):
+					self.note(f'residue:{"aligned" if aligned else "unaligned"}:resized')
+					return tweaked
+		return None
 
 	def sort_strict(self, array_type, items):
 		"""Keyed arrays are admissible only in strictly ascending key order: sort through the SDK-independent key and drop duplicates."""
@@ -392,6 +429,16 @@ def sort_key_of(net, array_type, item):
 	if isinstance(key_value, list):
 		return tuple(key_value)
 	return key_value
+
+
+def encoded_length(net, type_name, tree):
+	"""Length of the codec's own encoding of a value, None when the value is not built or not encoded (input selection only)."""
+	try:
+		return len(bytes(to_object(net, type_name, tree).serialize()))
+	except RecursionError:
+		raise
+	except Exception:  # pylint: disable=broad-except
+		return None
 
 
 def all_class_names(net):
